@@ -38,18 +38,23 @@ func SetConfig(config *ZodConfig) *ZodConfig {
 		return newConfig.clone()
 	}
 
-	current := globalConfig.Load()
-	newConfig := current.clone()
+	// Merge into the configuration that is current at the moment of the swap:
+	// a concurrent SetConfig between Load and Store would otherwise be undone.
+	for {
+		current := globalConfig.Load()
+		newConfig := current.clone()
 
-	if config.CustomError != nil {
-		newConfig.CustomError = config.CustomError
-	}
-	if config.LocaleError != nil {
-		newConfig.LocaleError = config.LocaleError
-	}
+		if config.CustomError != nil {
+			newConfig.CustomError = config.CustomError
+		}
+		if config.LocaleError != nil {
+			newConfig.LocaleError = config.LocaleError
+		}
 
-	globalConfig.Store(newConfig)
-	return newConfig.clone()
+		if globalConfig.CompareAndSwap(current, newConfig) {
+			return newConfig.clone()
+		}
+	}
 }
 
 // Config returns a read-only copy of the current global configuration.
